@@ -32,13 +32,17 @@ def scaler_case(cid, kind, X, w, wm, ws, cw, atol=(0, 1), rtol=(0, 1), tiny=True
          "wm": bool(wm), "ws": bool(ws), "cw": bool(cw), "atol": [int(atol[0]), int(atol[1])], "rtol": [int(rtol[0]), int(rtol[1])],
          "tiny": bool(tiny), "raised": False, "Tq": [], "Xrec": [], "news": [], "routes": []}
     kw = dict(with_mean=wm, with_std=ws, column_wise=cw, atol=1e-12 if tiny else atol[0] / atol[1], rtol=rtol[0] / rtol[1])
+    if (n + m) % 3 == 0:
+        kw["copy"] = bool((n + m) % 2)            # constructor form of the in-place switch
     Xf = X.astype(float)
     sw = None if w is None else np.asarray(w, float)
     try:
         with warnings.catch_warnings():
             warnings.simplefilter("ignore")
             sc = core.mk(StandardFlexibleScaler, **kw).fit(Xf, sample_weight=sw)
-            T = sc.transform(Xf)
+            # in-place forms (constructor copy=..., transform(copy=...)) on a private copy of the data: same values
+            cp = [{}, {}, {"copy": True}, {"copy": False}][(n + 2 * m + len(kind)) % 4]
+            T = sc.transform(Xf.copy(), **cp)
     except ValueError as e:
         c["raised"] = True
         c["msg"] = str(e)[:80]
